@@ -230,7 +230,8 @@ def check(pid, tier, seed, args):
     # ---- bounded stand-in (thorough always; quick only when the proof is not (re-)established)
     proof_ok = not (unknown or undecided or missing or errors or proof_lost)
     standin = None
-    run_standin = (tier == 'thorough') or (not proof_ok) or (not contracts) or (pid in OTHER_LEVEL)
+    unreplayed = [v for v in violations if not v[2]]
+    run_standin = (tier == 'thorough') or (not proof_ok) or (not contracts) or (pid in OTHER_LEVEL) or bool(unreplayed)
     have_standin = False
     if run_standin and not args.no_standin:
         try:
@@ -259,6 +260,18 @@ def check(pid, tier, seed, args):
                     json.dump({'property': pid, 'kind': 'standin', 'case': fail, 'native': {'reproduced': True}}, f, indent=1, default=str)
                 violations.append(("standin::" + str(fail.get('key')), path, True))
     native_fail = [v for v in violations if v[0].startswith('standin::')]
+    if native_fail:
+        # a refuted obligation without a replayed counter-model gets the concrete failing input the bounded check found
+        for i, (full, path, rep) in enumerate(violations):
+            if not rep and not full.startswith('standin::'):
+                try:
+                    rec = load_json(path, {})
+                    rec['native'] = {'reproduced': True, 'found_by': 'bounded stand-in', 'replay': native_fail[0][1]}
+                    with open(path, 'w') as f:
+                        json.dump(rec, f, indent=1, default=str)
+                    violations[i] = (full, path, True)
+                except OSError:
+                    pass
     for full, path, record in proof_lost:
         if native_fail:
             # the concrete failing input found by the bounded check is attached to the refuted obligation
